@@ -237,6 +237,26 @@ def c01(ctx):
                     traces.append({"ms": case["ms"], "cut": case["cut"], "mode": mode, "ev": ev})
                     meta.append({"family": f, "case": ci, "variant": v, "cuts": cuts, "mode": mode,
                                  "source": src, "exc": obs["exc"], "bytes": bytes(c.data).decode("latin-1")})
+    # permit_obsolete_folding relaxes ONE thing (continuation lines); heads without any continuation line keep their
+    # strict reading under it -- including values whose forbidden byte sits on the continuation of a folded spelling
+    # (the NulVal spellings contain such)
+    cfg_fold = drv.make_cfg(permit_obsolete_folding=True)
+    npf = 0
+    for f in ("heads1", "heads2"):
+        cases = [c for c in emitted[f] if not any(h == "ObsFold" for m in c["ms"] for h in list(m["hdrs"]) + list(m.get("trl", [])))]
+        if ctx.quick and len(cases) > 250:
+            cases = rng.sample(cases, 250)
+        for ci, case in enumerate(cases):
+            nv = cz.num_variants(case["ms"])
+            for v in ([rng.randrange(nv)] if ctx.quick else range(nv)):
+                n = len(cz.concretize(case["ms"], v, case["cut"]).data)
+                cuts = rand_cuts(rng, n)
+                ev, obs, c = observe(case, v, cuts, "read", "iter", cfg=cfg_fold)
+                traces.append({"ms": case["ms"], "cut": case["cut"], "mode": "read", "ev": ev})
+                meta.append({"family": f, "case": ci, "variant": v, "cuts": cuts, "mode": "read", "source": "iter,permit_obsolete_folding",
+                             "exc": obs["exc"], "bytes": bytes(c.data).decode("latin-1")})
+                npf += 1
+    ctx.coverage["streams_under_permit_obsolete_folding"] = npf
     # the same streams through the workers' connection handling (keep-alive hand-backs between requests): the
     # requests that reach the application are judged by the same strict reading
     nw = 0
